@@ -8,6 +8,7 @@ package main
 import (
 	"encoding/json"
 	"fmt"
+	"log/slog"
 	"math/rand"
 	"regexp"
 	"strings"
@@ -32,12 +33,23 @@ type Case struct {
 	Dwell     int    `json:"dwell"`
 	AddSource bool   `json:"add_source,omitempty"`
 	FailEvery int    `json:"fail_every,omitempty"` // the destination reports a short write + error on every n-th call
+	// ThrOff is added to the numeric value of the named threshold level (0..3): thresholds between the
+	// named levels. A record is enabled iff its level's value >= that of the threshold.
+	ThrOff int `json:"thr_off,omitempty"`
+	// Vias: records go through Log / level methods / LogAttrs / f-methods (see logrun.EmitVia)
+	// instead of Log only.
+	Vias bool `json:"vias,omitempty"`
 }
+
+func (cs Case) thr() slog.Level { return logrun.Levels[cs.Threshold] + slog.Level(cs.ThrOff) }
+
+func (cs Case) enabled(level int) bool { return logrun.Levels[level] >= cs.thr() }
 
 type planned struct {
 	base  int // -1 root, else index of a pre-derived child
 	extra []attrgen.ChainOp
 	level int
+	via   int
 	msg   string
 	attrs []attrgen.Node
 }
@@ -88,6 +100,12 @@ func plan(cs Case, g int) []planned {
 		default:
 			p.attrs = []attrgen.Node{leaf("e", &attrgen.Val{T: "err", B: []byte("boom")}), leaf("f", &attrgen.Val{T: "dur", I: 1500000})}
 		}
+		if cs.Vias {
+			p.via = r.Intn(4)
+			if p.via == 3 {
+				p.attrs = nil // the f-methods take no attributes
+			}
+		}
 		out[j] = p
 	}
 	return out
@@ -117,7 +135,7 @@ func runCase(cs Case, st *stats) (key, expected, observed string) {
 	}
 	w := recw.New(total+16, cs.Dwell)
 	w.FailEvery = cs.FailEvery
-	root := logger.New(logrun.NewHandler(cs.Kind, w, cs.Threshold, cs.AddSource))
+	root := logger.New(logrun.NewHandlerLevel(cs.Kind, w, cs.thr(), cs.AddSource))
 	children := make([]*logger.Logger, len(childChains))
 	for i, ch := range childChains {
 		children[i] = attrgen.Derive(root, ch)
@@ -147,7 +165,7 @@ func runCase(cs Case, st *stats) (key, expected, observed string) {
 						break
 					}
 				}
-				logrun.Emit(l, p.level, p.msg, attrgen.Args(p.attrs))
+				logrun.EmitVia(l, p.via, p.level, p.msg, p.attrs)
 				inside.Add(-1)
 			}
 		}(g)
@@ -166,6 +184,9 @@ func runCase(cs Case, st *stats) (key, expected, observed string) {
 		st.maxInside = m
 	}
 	tag := fmt.Sprintf("%s/thr%d", cs.Kind, cs.Threshold)
+	if cs.ThrOff != 0 {
+		tag += fmt.Sprintf("+%d", cs.ThrOff)
+	}
 	if n := w.Overlaps.Load(); n > 0 {
 		return "overlap:" + tag, "no two Write calls on the destination overlap", fmt.Sprintf("%d Write calls began while another was in progress", n)
 	}
@@ -174,11 +195,11 @@ func runCase(cs Case, st *stats) (key, expected, observed string) {
 	enabled := 0
 	for g := range plans {
 		for _, p := range plans[g] {
-			if p.level < cs.Threshold {
+			if !cs.enabled(p.level) {
 				continue
 			}
 			enabled++
-			line, err := logrun.AloneLine(cs.Kind, cs.Threshold, cs.AddSource, fullChain(p), p.level, p.msg, p.attrs)
+			line, err := logrun.AloneLineVia(cs.Kind, cs.thr(), cs.AddSource, fullChain(p), p.via, p.level, p.msg, p.attrs)
 			if err != nil || line == "" {
 				return "alone:" + tag, "alone replay writes one line", fmt.Sprintf("%q %v", clip(line), err)
 			}
@@ -215,7 +236,7 @@ func runCase(cs Case, st *stats) (key, expected, observed string) {
 			below := ""
 			for _, id := range ids {
 				var g, j int
-				if _, err := fmt.Sscanf(id, "r%d-%d", &g, &j); err == nil && g < len(plans) && j < len(plans[g]) && plans[g][j].level < cs.Threshold {
+				if _, err := fmt.Sscanf(id, "r%d-%d", &g, &j); err == nil && g < len(plans) && j < len(plans[g]) && !cs.enabled(plans[g][j].level) {
 					below = " (record " + id + " is below the threshold and must not be written)"
 				}
 			}
@@ -296,6 +317,10 @@ func (mn mon) Run(sh drv.Shard, c *drv.Ctx) {
 			cs := Case{Kind: kind, Threshold: (run + n) % 5, G: g, PerG: a.PerG * 8 / (g + 4), Seed: r.Int63(), Dwell: r.Intn(4), AddSource: r.Intn(4) == 0}
 			if r.Intn(3) == 0 {
 				cs.FailEvery = 2 + r.Intn(5)
+			}
+			cs.Vias = r.Intn(2) == 0
+			if r.Intn(3) == 0 && cs.Threshold < 4 {
+				cs.ThrOff = 1 + r.Intn(3) // a threshold between two named levels
 			}
 			c.Progress(fmt.Sprintf("%+v", cs), true)
 			before := st.switches
